@@ -194,6 +194,16 @@ package atree
 //@        is(old(as(a.root, *ArrayDataSlab).elements[a.mutableElementIndex[vid]]), Slab) &&
 //@        !is(old(as(a.root, *ArrayDataSlab).elements[a.mutableElementIndex[vid]]), SlabIDStorable) &&
 //@        !vidEq(vid, old(sid(as(a.root, *ArrayDataSlab).elements[a.mutableElementIndex[vid]]))) ==> !found && err == nil && parentUntouched()
+//@   ensures[C11] (old(inlinedC(c)) || old(inlinableC(c, maxInlineSize))) && old(has(a.mutableElementIndex, vid)) && old(is(a.root, *ArrayDataSlab)) &&
+//@        old(a.mutableElementIndex[vid]) < old(len(as(a.root, *ArrayDataSlab).elements)) &&
+//@        !is(old(as(a.root, *ArrayDataSlab).elements[a.mutableElementIndex[vid]]), WrapperStorable) &&
+//@        is(old(as(a.root, *ArrayDataSlab).elements[a.mutableElementIndex[vid]]), SlabIDStorable) &&
+//@        !vidEq(vid, SlabID(as(old(as(a.root, *ArrayDataSlab).elements[a.mutableElementIndex[vid]]), SlabIDStorable))) ==> !found && err == nil && parentUntouched()
+//@   ensures[C11] (old(inlinedC(c)) || old(inlinableC(c, maxInlineSize))) && old(has(a.mutableElementIndex, vid)) && old(is(a.root, *ArrayDataSlab)) &&
+//@        old(a.mutableElementIndex[vid]) < old(len(as(a.root, *ArrayDataSlab).elements)) &&
+//@        !is(old(as(a.root, *ArrayDataSlab).elements[a.mutableElementIndex[vid]]), WrapperStorable) &&
+//@        !is(old(as(a.root, *ArrayDataSlab).elements[a.mutableElementIndex[vid]]), SlabIDStorable) &&
+//@        !is(old(as(a.root, *ArrayDataSlab).elements[a.mutableElementIndex[vid]]), Slab) ==> !found && err == nil && parentUntouched()
 //@   ensures[C11] !found && err == nil ==> parentUntouched()
 //@   modifies heap, ghost.sto, ghost.stored, ghost.touched, ghost.notified, alloc
 
